@@ -82,6 +82,8 @@ fails with the change; the 81 tests still pass) and archived under `seeded/<id>/
 `harness/seed_sweep.py` applies each in turn to `/repo`, runs the quick check of its
 property, records the failing obligations (`seeded/SWEEP.json`, `meta.json: caught_by`)
 and undoes it. **%d of %d are caught by the quick tier; all 16 reverse fixes are caught.**
+The sweep of all changes runs as six shards side by side, each on its own snapshot of `/verif` and of the
+repository (`harness/sweep_shard.sh` under `vp run --with-repo`, 35 minutes), never on `/repo` while a check runs there.
 Seeds that an earlier version of a check missed (or caught by correspondence only) are
 marked; in every such case the *generator or observer* was strengthened - never the
 property, never a special case for the seed.
